@@ -3,7 +3,17 @@
 use crate::common::AuthVar;
 use serde::{Deserialize, Serialize};
 
-pub const CHAINS: [&str; 6] = ["ethereum", "avalanche", "sui", "axelar", "héllo-chain", ""];
+pub const CHAINS: [&str; 8] = [
+    "ethereum",
+    "avalanche",
+    "sui",
+    "axelar",
+    "héllo-chain",
+    "",
+    // two long names that differ only in their last character
+    "a-very-long-chain-name-that-goes-well-beyond-sixty-four-bytes-of-utf8-text-A",
+    "a-very-long-chain-name-that-goes-well-beyond-sixty-four-bytes-of-utf8-text-B",
+];
 pub const HUB_CHAIN: &str = "axelar";
 pub const NAMES: [&str; 4] = ["Test Token", "t", "Unicode Token 🪙", ""];
 pub const SYMS: [&str; 4] = ["TST", "T", "UNI🔣", ""];
